@@ -499,11 +499,12 @@ func c15ConcRound(r *verifkit.Run, round, racers int) {
 	plans := make([][]int, racers) // pre-drawn choices: the case list is a function of the seed
 	for g := range plans {
 		n := 2 + rnd.IntN(3)
-		if racers > 16 {
-			n = 1 + rnd.IntN(2)
-		}
 		for j := 0; j < n; j++ {
-			plans[g] = append(plans[g], rnd.IntN(1000))
+			c := rnd.IntN(1000)
+			if g >= 6 && c%10 >= 8 {
+				c -= c % 10 // at most six clients read the journal: many concurrent reads of one value blow up the linearizability search
+			}
+			plans[g] = append(plans[g], c)
 		}
 	}
 	start := make(chan struct{})
@@ -714,7 +715,58 @@ func c15ConcRound(r *verifkit.Run, round, racers int) {
 		}
 	}
 
-	// ---- linearizability (porcupine), one partition per entity / created name
+	// ---- refused requests: a refusal is unexplained when the whole call lies inside the interval in
+	// which the version it named was certainly current (resp. the name certainly free).  Refusals
+	// commute with each other, so feeding dozens of them to the linearizability search makes it
+	// exponential; this rule is the exact per-request condition and costs nothing.
+	produced := map[string]c15ConcOp{} // "<part>@<version>" -> accepted request that produced the version
+	consumed := map[string]c15ConcOp{} // "<part>@<version>" -> accepted edit from that version
+	for _, o := range succ {
+		produced[fmt.Sprintf("%s@%d", o.Part, o.Ver)] = o
+		if o.Kind == "edit" {
+			consumed[fmt.Sprintf("%s@%d", o.Part, o.From)] = o
+		}
+	}
+	initVer := map[string]int64{}
+	for _, e := range ents {
+		initVer[fmt.Sprintf("ent:%d", e.id)] = e.ver
+	}
+	for _, o := range all {
+		if o.OK || o.Kind == "journal" {
+			continue
+		}
+		certainFrom, certainTo := int64(-1), int64(1)<<62 // the named version is certainly current in [certainFrom, certainTo]
+		switch o.Kind {
+		case "edit":
+			if p, ok := produced[fmt.Sprintf("%s@%d", o.Part, o.From)]; ok {
+				certainFrom = p.Return
+			} else if initVer[o.Part] == o.From {
+				certainFrom = 0
+			} else {
+				continue // a version the entity never had: refusing is right
+			}
+			if c, ok := consumed[fmt.Sprintf("%s@%d", o.Part, o.From)]; ok {
+				certainTo = c.Call
+			}
+		case "create":
+			certainFrom = 0 // the name is certainly free until the accepted create is called
+			found := false
+			for _, w := range succ {
+				if w.Kind == "create" && w.Part == o.Part {
+					certainTo, found = w.Call, true
+				}
+			}
+			if !found {
+				certainTo = int64(1) << 62
+			}
+		}
+		r.Count("conc.refusals_judged_by_interval_rule", 1)
+		if o.Call >= certainFrom && o.Return <= certainTo {
+			r.Violation("C15/conc/refused-while-current", fmt.Sprintf("%s on %s from version %d was refused (%s) although that version was current (name free) during the whole call [%d,%d]", o.Kind, o.Part, o.From, o.Err, o.Call, o.Return), witness())
+		}
+	}
+
+	// ---- linearizability (porcupine), one partition per entity / created name: accepted requests and reads
 	parts := map[string][]porcupine.Operation{}
 	for _, e := range ents {
 		p := fmt.Sprintf("ent:%d", e.id)
@@ -734,6 +786,9 @@ func c15ConcRound(r *verifkit.Run, round, racers int) {
 		for _, o := range l {
 			switch o.Kind {
 			case "edit", "create":
+				if !o.OK {
+					continue // refused requests are judged by the interval rule above (see c15RefusedExplained)
+				}
 				parts[o.Part] = append(parts[o.Part], porcupine.Operation{ClientId: g + 1, Input: c15PIn{o.Kind, o.From}, Call: o.Call, Output: c15POut{o.OK, o.Ver}, Return: o.Return})
 			case "journal":
 				if !o.OK {
@@ -789,8 +844,8 @@ func TestVerifC15Conc(t *testing.T) {
 	r := verifkit.Start(t, "C15", "conc")
 	defer r.Finish()
 	mdkAssumeSQLite(r)
-	r.SetRule("rounds on a fresh database: 2–4 seeded entities, then 8 (quick) / 64 (thorough) goroutines each issue 2–4 (quick) / 1–2 (thorough, 4–6 seeded entities) requests — plain edits from the version they believe current (first the common seeded version, later what they learned), creates of two shared names, journal reads. One case = one raced (entity, version) group, one journal page, or one porcupine partition. Non-trivial = ≥2 edits from one version / non-empty page / partition with >3 operations; distinct = (attempts, winners) resp. partition size and verdict; history_shapes = distinct call/return interleavings.")
-	rounds := r.N(40, 200)
+	r.SetRule("rounds on a fresh database: 2–4 seeded entities, then 8 (quick) / 64 (thorough) goroutines each issue 2–4 requests — plain edits from the version they believe current (first the common seeded version, later what they learned), creates of two shared names, journal reads. One case = one raced (entity, version) group, one journal page, or one porcupine partition. Non-trivial = ≥2 edits from one version / non-empty page / partition with >3 operations; distinct = (attempts, winners) resp. partition size and verdict; history_shapes = distinct call/return interleavings.")
+	rounds := r.N(40, 150)
 	racers := r.N(8, 64)
 	for i := 0; i < rounds; i++ {
 		c15ConcRound(r, i, racers)
